@@ -500,8 +500,26 @@ class Expander:
             st = lines[k].strip()
             if st.startswith('//@include'):
                 inc = st[len('//@include'):].strip()
+                # `//@include file except=tag1,tag2`: the blocks `//@tag <name>` ... `//@endtag` with these names are left out
+                # (a unit that extracts a function for real leaves out the prelude's stand-in for it)
+                drop = set()
+                if ' except=' in inc:
+                    inc, ex = inc.split(' except=', 1)
+                    drop = set(x.strip() for x in ex.split(','))
+                    inc = inc.strip()
                 path = os.path.join(os.path.dirname(os.path.abspath(__file__)), '..', 'contracts', inc)
-                lines[k:k + 1] = open(path).read().split('\n')
+                inc_lines, skipping = [], False
+                for il in open(path).read().split('\n'):
+                    ist = il.strip()
+                    if ist.startswith('//@tag '):
+                        skipping = ist[len('//@tag '):].strip() in drop
+                        continue
+                    if ist.startswith('//@endtag'):
+                        skipping = False
+                        continue
+                    if not skipping:
+                        inc_lines.append(il)
+                lines[k:k + 1] = inc_lines
                 continue
             k += 1
         i = 0
